@@ -350,6 +350,10 @@ class Server:
             # If timeout is negative, it doesn't wait.
             # This may raise an exception originating from RemoteException
         except concurrent.futures.TimeoutError as e:
+            if fut.done() and not fut.cancelled():
+                # It is not the wait that timed out: the request failed with an exception
+                # that is itself a `TimeoutError` (or the outcome arrived at the last moment).
+                return fut.result()
             fut.cancel()
             t0 = fut.data['t0']
             fut.data['t_cancelled'] = perf_counter()
@@ -632,6 +636,10 @@ class AsyncServer:
         try:
             await asyncio.wait_for(fut, fut.data['deadline'] - perf_counter())
         except (asyncio.TimeoutError, TimeoutError):
+            if fut.done() and not fut.cancelled():
+                # It is not the wait that timed out: the request failed with an exception
+                # that is itself a `TimeoutError` (or the outcome arrived at the last moment).
+                return fut.result()
             t0 = fut.data['t0']
             fut.cancel()
             fut.data['t_cancelled'] = perf_counter()  # time of abandonment
@@ -663,6 +671,12 @@ class AsyncServer:
             if fut.done():
                 # Cancelled (e.g. the caller timed out) since this was scheduled.
                 return
+            if isinstance(y, StopIteration):
+                # An `asyncio.Future` refuses this class; deliver it the way a generator would.
+                try:
+                    raise RuntimeError('the worker raised StopIteration') from y
+                except RuntimeError as e:
+                    y = e
             if isinstance(y, BaseException):
                 fut.set_exception(y)
             else:
